@@ -1,7 +1,27 @@
 """Per-property configuration of bin/check: Lean theorem module, harness suites
 (with their quick / thorough arguments) and notes for the evidence file."""
 
+ENGINE = {"name": "engine", "suite": "engine", "quick": ["--count", 5000], "thorough": ["--count", 40000]}
+PRUNE = {"name": "prune", "suite": "prune", "quick": ["--count", 25000], "thorough": ["--count", 300000]}
+PRUNE_EXH = {"name": "prune-exh", "suite": "prune-exh", "quick": ["--universe", 1], "thorough": ["--universe", 2]}
+VIEWS = {"name": "views", "suite": "views", "quick": ["--count", 25000, "--depth", 2], "thorough": ["--count", 300000, "--depth", 2]}
+VIEWS0 = {"name": "views0", "suite": "views", "quick": ["--count", 15000, "--depth", 0], "thorough": ["--count", 200000, "--depth", 0]}
+VIEWS_EXH = {"name": "views-exh", "suite": "views-exh", "quick": ["--universe", 1, "--bound", 5], "thorough": ["--universe", 3, "--bound", 10]}
+INT_ASSUME = [
+    "i32 arithmetic modelled on unbounded Int (overflow is C17's subject); values in the explored inputs are small",
+    "the engine theorems speak about runs that did not exhaust the model's fuel; the driver runs with fuel 10^7 and reports out-of-fuel explicitly (never seen)",
+    "propagator kinds covered by the contract theorem: leq, eq, add, sum, linEq/linLe/linNe (+reified), reified comparisons, boolean and/or/not/xor, abs, min, max; other kinds are exercised by the API-level oracle only",
+]
+
 CHECKS = {
+    "C01": {"suites": [ENGINE], "assumptions": INT_ASSUME},
+    "C02": {"suites": [ENGINE], "assumptions": INT_ASSUME},
+    "C03": {"suites": [ENGINE], "assumptions": INT_ASSUME},
+    "C04": {"suites": [ENGINE], "assumptions": INT_ASSUME + ["optimisation fast path and root LP step are switched off by hook H4 in the engine-level runs (call-site findings)"]},
+    "C05": {"suites": [PRUNE, PRUNE_EXH, ENGINE], "assumptions": INT_ASSUME, "exhaustive_in_thorough": True},
+    "C12": {"suites": [VIEWS0, PRUNE], "assumptions": INT_ASSUME + ["float arms: not yet stated as theorems in this revision"]},
+    "C13": {"suites": [VIEWS, VIEWS_EXH], "assumptions": INT_ASSUME, "exhaustive_in_thorough": True},
+    "C14": {"suites": [ENGINE], "assumptions": INT_ASSUME},
     "C11": {
         "suites": [
             {"name": "ss", "suite": "ss", "quick": ["--count", 600], "thorough": ["--count", 40000]},
